@@ -3,7 +3,9 @@ package main
 import (
 	"fmt"
 	"go/ast"
+	"go/parser"
 	"go/token"
+	"path/filepath"
 	"sort"
 	"strconv"
 	"strings"
@@ -14,8 +16,61 @@ import (
 
 var c15Guarded = map[string]bool{"curs": true, "busy": true, "free": true, "freePoolSz": true}
 
-// c15Seconds evaluates expressions like `time.Duration(60 * time.Second)`, `5 * time.Minute` to seconds (-1 = unknown).
-func c15Seconds(e ast.Expr) int64 {
+// c15Consts: the named constants of package cursor (package level and function level, every non-test file): name -> defining
+// expression. A literal of provider.go that is given a name (`const cMaxFreePoolSize = 1000`) is still the same fact.
+var c15Consts = map[string]ast.Expr{}
+
+func c15LoadConsts(dir string) {
+	files, _ := filepath.Glob(filepath.Join(repo, dir, "*.go"))
+	sort.Strings(files)
+	for _, fn := range files {
+		if strings.HasSuffix(fn, "_test.go") {
+			continue
+		}
+		f, err := parser.ParseFile(fset, fn, nil, 0)
+		if err != nil {
+			continue
+		}
+		ast.Inspect(f, func(n ast.Node) bool {
+			gd, ok := n.(*ast.GenDecl)
+			if !ok || gd.Tok != token.CONST {
+				return true
+			}
+			for _, sp := range gd.Specs {
+				vs, ok := sp.(*ast.ValueSpec)
+				if !ok {
+					continue
+				}
+				for i, nm := range vs.Names {
+					if i < len(vs.Values) {
+						c15Consts[nm.Name] = vs.Values[i]
+					}
+				}
+			}
+			return true
+		})
+	}
+}
+
+// c15Seconds evaluates expressions like `time.Duration(60 * time.Second)`, `5 * time.Minute`, a named constant of the
+// package, to seconds / a plain number (-1 = unknown).
+func c15Seconds(e ast.Expr) int64 { return c15Eval(e, 0) }
+
+func c15Eval(e ast.Expr, depth int) int64 {
+	if depth > 8 {
+		return -1
+	}
+	if id, ok := e.(*ast.Ident); ok {
+		if d, ok := c15Consts[id.Name]; ok {
+			return c15Eval(d, depth+1)
+		}
+		return -1
+	}
+	return c15Seconds1(e, depth)
+}
+
+func c15Seconds1(e ast.Expr, depth int) int64 {
+	c15Seconds := func(e ast.Expr) int64 { return c15Eval(e, depth+1) }
 	switch x := e.(type) {
 	case *ast.ParenExpr:
 		return c15Seconds(x.X)
@@ -99,13 +154,65 @@ type c15Site struct {
 type c15Walker struct {
 	fn       string
 	recv     string
+	alias    map[string]bool // locals that are copies of the receiver pointer (`x := recv`)
 	deferred bool     // `defer <recv>.lock.Unlock()` (or a deferred closure that unlocks) seen: locked until the function returns
 	unlocked []string // accesses to guarded fields outside a locked region
 	sites    []c15Site
 }
 
 func (w *c15Walker) sub(suffix string) *c15Walker {
-	return &c15Walker{fn: w.fn + suffix, recv: w.recv}
+	return &c15Walker{fn: w.fn + suffix, recv: w.recv, alias: w.alias}
+}
+
+// lockExpr: +1 / -1 for Lock / Unlock of the mutex through the receiver or a local copy of it
+func (w *c15Walker) lockExpr(e ast.Expr) int {
+	if d := c15LockExpr(e, w.recv); d != 0 {
+		return d
+	}
+	for a := range w.alias {
+		if d := c15LockExpr(e, a); d != 0 {
+			return d
+		}
+	}
+	return 0
+}
+
+// isRecv: the receiver or a local copy of it
+func (w *c15Walker) isRecv(name string) bool { return name == w.recv || w.alias[name] }
+
+// c15Aliases: locals of the method that are plain copies of the receiver (`x := recv`, `x = recv`, `var x = recv`)
+func c15Aliases(fd *ast.FuncDecl) map[string]bool {
+	recv := c15RecvName(fd)
+	res := map[string]bool{}
+	if recv == "" || fd.Body == nil {
+		return res
+	}
+	for round := 0; round < 3; round++ {
+		ast.Inspect(fd.Body, func(n ast.Node) bool {
+			switch x := n.(type) {
+			case *ast.AssignStmt:
+				if len(x.Lhs) == len(x.Rhs) {
+					for i := range x.Lhs {
+						l, ok1 := x.Lhs[i].(*ast.Ident)
+						r, ok2 := x.Rhs[i].(*ast.Ident)
+						if ok1 && ok2 && (r.Name == recv || res[r.Name]) && l.Name != "_" {
+							res[l.Name] = true
+						}
+					}
+				}
+			case *ast.ValueSpec:
+				if len(x.Names) == len(x.Values) {
+					for i := range x.Names {
+						if r, ok := x.Values[i].(*ast.Ident); ok && (r.Name == recv || res[r.Name]) {
+							res[x.Names[i].Name] = true
+						}
+					}
+				}
+			}
+			return true
+		})
+	}
+	return res
 }
 
 func (w *c15Walker) take(sub *c15Walker) {
@@ -128,12 +235,12 @@ func (w *c15Walker) expr(n ast.Node, locked bool) {
 			return false
 		case *ast.CallExpr:
 			if se, ok := x.Fun.(*ast.SelectorExpr); ok {
-				if id, ok := se.X.(*ast.Ident); ok && id.Name == w.recv {
+				if id, ok := se.X.(*ast.Ident); ok && w.isRecv(id.Name) {
 					w.sites = append(w.sites, c15Site{se.Sel.Name, locked})
 				}
 			}
 		case *ast.SelectorExpr:
-			if id, ok := x.X.(*ast.Ident); ok && id.Name == w.recv && c15Guarded[x.Sel.Name] && !locked {
+			if id, ok := x.X.(*ast.Ident); ok && w.isRecv(id.Name) && c15Guarded[x.Sel.Name] && !locked {
 				w.unlocked = append(w.unlocked, fmt.Sprintf("%s:%d:p.%s", w.fn, fset.Position(x.Pos()).Line, x.Sel.Name))
 			}
 		}
@@ -163,7 +270,7 @@ func (w *c15Walker) call(c *ast.CallExpr, locked bool, atExit bool) {
 			w.deferred = true // the deferred closure is what unlocks
 		}
 	case *ast.SelectorExpr:
-		if id, ok := f.X.(*ast.Ident); ok && id.Name == w.recv {
+		if id, ok := f.X.(*ast.Ident); ok && w.isRecv(id.Name) {
 			w.sites = append(w.sites, c15Site{f.Sel.Name, then})
 		} else {
 			w.expr(f.X, locked)
@@ -189,7 +296,7 @@ func c15Terminates(s ast.Stmt) bool {
 func (w *c15Walker) block(stmts []ast.Stmt, locked bool) (bool, bool) {
 	for _, s := range stmts {
 		if es, ok := s.(*ast.ExprStmt); ok {
-			if d := c15LockExpr(es.X, w.recv); d != 0 {
+			if d := w.lockExpr(es.X); d != 0 {
 				locked = d > 0
 				continue
 			}
@@ -280,7 +387,7 @@ func (w *c15Walker) block(stmts []ast.Stmt, locked bool) (bool, bool) {
 				w.block(c.(*ast.CaseClause).Body, locked)
 			}
 		case *ast.DeferStmt:
-			if c15LockExpr(x.Call, w.recv) < 0 {
+			if w.lockExpr(x.Call) < 0 {
 				w.deferred = true // locked until the function returns
 				continue
 			}
@@ -322,7 +429,7 @@ func c15LockDiscipline(methods map[string]*ast.FuncDecl) []string {
 		all := map[string]bool{}  // has a call site
 		some := map[string]bool{} // has a call site without the lock
 		for _, n := range names {
-			w := &c15Walker{fn: n, recv: c15RecvName(methods[n])}
+			w := &c15Walker{fn: n, recv: c15RecvName(methods[n]), alias: c15Aliases(methods[n])}
 			w.block(methods[n].Body.List, lockedEntry[n])
 			unlocked = append(unlocked, w.unlocked...)
 			for _, st := range w.sites {
@@ -363,6 +470,7 @@ func init() {
 	generators["C15"] = func() {
 		l := newLean("C15", "Facts about pkg/cursor/provider.go (NewProvider constants, lock discipline, shape of Release and of the\nsecond locked section of GetOrCreate) and the caching rule constant of pkg/backend/querier.go.")
 		f := parseFile("pkg/cursor/provider.go")
+		c15LoadConsts("pkg/cursor")
 
 		// --- constants of NewProvider
 		maxCurs, idleTo, busyTo := int64(-1), int64(-1), int64(-1)
